@@ -357,6 +357,10 @@ M('F46R', 'src/xdoctest/checker.py', """                try:
                 flag = check_output(got, want, runstate)
                 if not flag:
                     got = got_stdout""", ['C08', 'C09'], 'F46 repair reverted: a raising __repr__ in the eval fallback escapes as an exception of the doctest')
+M('F47R', 'src/xdoctest/checker.py', """        if got == want or got == want + '\\n':""", """        if got == want:""", ['C20'], 'F47 repair reverted (1): output equal to the marker text is not accepted by plain equality')
+M('F47bR', 'src/xdoctest/checker.py', """    blankline_pattern = r'^[^\\S\\n]*{}[^\\S\\n]*$'.format(re.escape(BLANKLINE_MARKER))
+    new_text = re.sub(blankline_pattern, '', text, flags=re.MULTILINE)""", """    blankline_pattern = re.escape(BLANKLINE_MARKER)
+    new_text = re.sub(blankline_pattern, '', text, flags=re.MULTILINE)""", ['C20'], 'F47 repair reverted (2): the marker is replaced also inside a line of the want')
 M('F17R', 'src/xdoctest/doctest_example.py', """                part_directive = None
                 try:
                     try:
